@@ -147,7 +147,8 @@ def run(prog: Program, rep, tier: str) -> None:
             continue
         tg = (s.stmt.targets if isinstance(s.stmt, ast.Assign) else [s.stmt.target])[0]
         if isinstance(tg, ast.Name) and tg.id in path_names and isinstance(s.stmt.value, ast.List) and len(s.stmt.value.elts) == 1:
-            lists[tg.id] = (s, ff.resolved(s.stmt, s.stmt.value.elts[0]))
+            from ..symex import simplify_under as _su
+            lists[tg.id] = (s, _su(ff.resolved(s.stmt, s.stmt.value.elts[0]), s.facts))    # `z if collect else None` under `if collect:` is z
     ok_init = False
     if N.get("path") in lists and N.get("times") in lists:
         sp, vp = lists[N["path"]]
@@ -199,9 +200,9 @@ def run(prog: Program, rep, tier: str) -> None:
         if N.get("path") is None or N.get("times") is None:
             break   # path recording not in the recognised form: decided (as an analysis error) by L.path_lists() below
         s2 = ff.stmt_of(c)
-        pv = U(ff.resolved(s2.stmt, ast.Name(id=N["path"] or "path", ctx=ast.Load())))
-        tv = U(ff.resolved(s2.stmt, ast.Name(id=N["times"] or "path_times", ctx=ast.Load())))
         from ..symex import simplify_under
+        pv = U(simplify_under(ff.resolved(s2.stmt, ast.Name(id=N["path"] or "path", ctx=ast.Load())), s2.facts))
+        tv = U(simplify_under(ff.resolved(s2.stmt, ast.Name(id=N["times"] or "path_times", ctx=ast.Load())), s2.facts))
         a = [U(simplify_under(ff.resolved(s2.stmt, x), s2.facts)) for x in c.args]
         ok = len(a) == 2 and a[0] == f"np.vstack({pv}).T" and a[1] == f"np.hstack({tv})"
         rep.check(ok, "result-fields", sv.qualname, short(s2.stmt), "_set_path receives the stacked path (one column per point) and the stacked model times", sv.loc(c))
